@@ -49,7 +49,9 @@ def check(run):
     def opt(m, tol, vb=False, ff=True):
         return {'op': 'OptCall', 'maxIter': m, 'fixFirst': ff, 'verbose': vb, 'tol': tol, 'q': '-', 'target': 0, 'idx': 0, 'flag': False}
     behaviours += [('se2', [opt(6, '1e-4', True), opt(3, '0')]), ('se3', [opt(4, '0', True), opt(6, 'stop:2')]), ('se2far', [opt(6, '0'), opt(4, '1e-1', True)]),
-                   ('r2', [opt(3, '0'), opt(4, '1e-12')]), ('se2', [opt(1, '0', False, False)])]
+                   ('r2', [opt(3, '0'), opt(4, '1e-12')]), ('se2', [opt(1, '0', False, False)]),
+                   ('r2', [opt(4, '0', False, False), opt(3, '1e-4', True, False)]), ('r3', [opt(5, '1e-4', False, False)]), ('r2iso', [opt(3, '1e-2', False, False)]),
+                   ('r2lonely', [opt(4, '1e-4'), opt(3, '0', True)]), ('se3lonely', [opt(3, '1e-2', True), opt(2, '0')])]
     events = []
     sessions = scenario.play(behaviours, run.seed, events, twin_every=1, split_fn=split_fn)
     rejects = scenario.validate(run, events)
